@@ -20,6 +20,7 @@ Inductive op :=
 | ODrain | OStop | OQuery
 | OSetDisc (d : option (N * mode)) | OSetCount (n : N)
 | OXStop (wid : N)       (* stop the newest live actor of worker wid from outside; its post_stop is held back *)
+| OXGate (wid : N)       (* the newest live actor of worker wid gets a held-back post_stop, whoever stops it later (a shrink) *)
 | OXRelease (wid : N)    (* let the held-back post_stop of worker wid's oldest closing actor return *)
 | OSetHandler.           (* UpdateSettings(discard_handler): the model has one handler; only the message counts *)
 
@@ -108,6 +109,7 @@ Definition op_labels (w : world) (o : op) : list label :=
   | OSetDisc d => [LSend (SSetDisc d)]
   | OSetCount n => [LSend (SSetCount n)]
   | OXStop wid => match newest_actor w wid with Some a => [LWStopExt a] | None => [] end
+  | OXGate wid => match newest_actor w wid with Some a => [LWGate a] | None => [] end
   | OXRelease wid => match closing_actor w wid with Some a => [LWClosed a] | None => [] end
   | OSetHandler => [LSend SNop]
   end.
